@@ -57,7 +57,7 @@ type FS struct {
 	// scripted qids of the last walk
 	WalkQids []p9p.Qid
 	// Gate, when set, is called on entry (enter=true) and exit of every call in script mode.
-	Gate func(enter bool, call string, h *Handle)
+	Gate func(ctx context.Context, enter bool, call string, h *Handle)
 	// Free mode: no script; outcomes decided by Decide.
 	Decide func(call string, h *Handle) Expect
 }
@@ -110,10 +110,10 @@ func (fs *FS) EndProbe() []Event {
 func ErrFS(call string) error { return p9p.MessageRerror{Ename: "fs:" + call + " failed"} }
 
 // call is the single entry point of every FileSys / Dirent / File method.
-func (fs *FS) call(call string, h *Handle) (e Expect, scripted bool) {
+func (fs *FS) call(ctx context.Context, call string, h *Handle) (e Expect, scripted bool) {
 	if fs.Gate != nil && !fs.probe {
-		fs.Gate(true, call, h)
-		defer fs.Gate(false, call, h)
+		fs.Gate(ctx, true, call, h)
+		defer fs.Gate(ctx, false, call, h)
 	}
 	fs.mu.Lock()
 	defer fs.mu.Unlock()
@@ -166,7 +166,7 @@ func (fs *FS) Auth(ctx context.Context, uname, aname string) (p9p.AuthFile, erro
 }
 
 func (fs *FS) Attach(ctx context.Context, uname, aname string, af p9p.AuthFile) (p9p.Dirent, error) {
-	e, ok := fs.call("attach", nil)
+	e, ok := fs.call(ctx, "attach", nil)
 	if !ok || e.Out != "ok" {
 		return nil, ErrFS("attach")
 	}
@@ -190,7 +190,7 @@ func (h *Handle) StatDir() p9p.Dir {
 }
 
 func (h *Handle) OpenDir(ctx context.Context) (p9p.ReadNext, error) {
-	e, ok := h.fs.call("opendir", h)
+	e, ok := h.fs.call(ctx, "opendir", h)
 	switch {
 	case !ok && e.Out != "probe", e.Out == "fail":
 		return nil, ErrFS("opendir")
@@ -201,7 +201,7 @@ func (h *Handle) OpenDir(ctx context.Context) (p9p.ReadNext, error) {
 }
 
 func (h *Handle) Walk(ctx context.Context, names ...string) ([]p9p.Qid, p9p.Dirent, error) {
-	e, ok := h.fs.call("walk", h)
+	e, ok := h.fs.call(ctx, "walk", h)
 	fs := h.fs
 	fs.mu.Lock()
 	defer fs.mu.Unlock()
@@ -210,6 +210,9 @@ func (h *Handle) Walk(ctx context.Context, names ...string) ([]p9p.Qid, p9p.Dire
 	}
 	if !ok || e.Out == "fail" {
 		return nil, nil, ErrFS("walk")
+	}
+	if fs.Decide != nil {
+		e.K = len(names)
 	}
 	qids := make([]p9p.Qid, e.K)
 	for i := range qids {
@@ -234,7 +237,7 @@ func (h *Handle) Walk(ctx context.Context, names ...string) ([]p9p.Qid, p9p.Dire
 }
 
 func (h *Handle) Create(ctx context.Context, name string, perm uint32, mode p9p.Flag) (p9p.Dirent, p9p.File, error) {
-	e, ok := h.fs.call("create", h)
+	e, ok := h.fs.call(ctx, "create", h)
 	if !ok || e.Out != "ok" {
 		return nil, nil, ErrFS("create")
 	}
@@ -250,7 +253,7 @@ func (h *Handle) Create(ctx context.Context, name string, perm uint32, mode p9p.
 }
 
 func (h *Handle) Open(ctx context.Context, mode p9p.Flag) (p9p.File, error) {
-	e, ok := h.fs.call("open", h)
+	e, ok := h.fs.call(ctx, "open", h)
 	switch {
 	case !ok && e.Out != "probe", e.Out == "fail":
 		return nil, ErrFS("open")
@@ -261,7 +264,7 @@ func (h *Handle) Open(ctx context.Context, mode p9p.Flag) (p9p.File, error) {
 }
 
 func (h *Handle) Remove(ctx context.Context) error {
-	e, ok := h.fs.call("remove", h)
+	e, ok := h.fs.call(ctx, "remove", h)
 	h.fs.mu.Lock()
 	h.Removes++
 	h.fs.mu.Unlock()
@@ -272,7 +275,7 @@ func (h *Handle) Remove(ctx context.Context) error {
 }
 
 func (h *Handle) Clunk(ctx context.Context) error {
-	e, ok := h.fs.call("clunk", h)
+	e, ok := h.fs.call(ctx, "clunk", h)
 	h.fs.mu.Lock()
 	h.Clunks++
 	h.fs.mu.Unlock()
@@ -283,7 +286,7 @@ func (h *Handle) Clunk(ctx context.Context) error {
 }
 
 func (h *Handle) Stat(ctx context.Context) (p9p.Dir, error) {
-	e, ok := h.fs.call("stat", h)
+	e, ok := h.fs.call(ctx, "stat", h)
 	if !ok && e.Out != "probe" || e.Out == "fail" {
 		return p9p.Dir{}, ErrFS("stat")
 	}
@@ -291,7 +294,7 @@ func (h *Handle) Stat(ctx context.Context) (p9p.Dir, error) {
 }
 
 func (h *Handle) WStat(ctx context.Context, d p9p.Dir) error {
-	e, ok := h.fs.call("wstat", h)
+	e, ok := h.fs.call(ctx, "wstat", h)
 	if !ok && e.Out != "probe" || e.Out == "fail" {
 		return ErrFS("wstat")
 	}
@@ -311,7 +314,7 @@ func (f *HFile) Pattern(n int) []byte {
 }
 
 func (f *HFile) Read(ctx context.Context, p []byte, off int64) (int, error) {
-	e, ok := f.H.fs.call("read", f.H)
+	e, ok := f.H.fs.call(ctx, "read", f.H)
 	if !ok && e.Out != "probe" || e.Out == "fail" {
 		return 0, ErrFS("read")
 	}
@@ -322,7 +325,7 @@ func (f *HFile) Read(ctx context.Context, p []byte, off int64) (int, error) {
 }
 
 func (f *HFile) Write(ctx context.Context, p []byte, off int64) (int, error) {
-	e, ok := f.H.fs.call("write", f.H)
+	e, ok := f.H.fs.call(ctx, "write", f.H)
 	if !ok && e.Out != "probe" || e.Out == "fail" {
 		return 0, ErrFS("write")
 	}
